@@ -3,6 +3,7 @@ package checks
 import (
 	"bytes"
 	"fmt"
+	"math"
 	"strings"
 	"time"
 	"unsafe"
@@ -115,6 +116,9 @@ func runC10(c *vf.Case) {
 				n = size
 			case 3:
 				n = size + 1 + r.Intn(5)
+				if r.Chance(1, 4) {
+					n = math.MaxInt - []int{0, 1, total, size}[r.Intn(4)]
+				}
 			case 4:
 				n = size - total
 			default:
@@ -164,6 +168,9 @@ func runC10(c *vf.Case) {
 				m = cl
 			case 2:
 				m = cl + 1 + r.Intn(4)
+				if r.Chance(1, 4) {
+					m = math.MaxInt - []int{0, 1, total, size}[r.Intn(4)]
+				}
 			case 3:
 				m = 1
 			default:
@@ -214,6 +221,9 @@ func runC10(c *vf.Case) {
 				n = H
 			case 3:
 				n = H + 1 + r.Intn(size+1)
+				if r.Chance(1, 4) {
+					n = math.MaxInt - []int{0, 1, total, size}[r.Intn(4)]
+				}
 			default:
 				n = r.Range(0, max(1, H))
 			}
